@@ -50,6 +50,12 @@ SHAPES09 = [
     ('attr-on-nested-factor', [102002, 1001, 101000, 31001, 12001, 223000, 101000, 31001, 31031, 101000, 31001, 223255]),
     ('dnp-221', [221003, 12001, 1001, 5001, 12001]),
     ('dnp-221-in-replication', [102002, 221002, 12001, 1001, 12001]),
+    # 221 spans that cover non-element descriptors (grey for FM-94, DESIGN 2.3; the library counts every
+    # descriptor of the list) - data produced in R's permissive mode, compared differentially only
+    ('dnp-221-over-sequence', [221003, 301021, 12001, 12004, 1001]),
+    ('dnp-221-over-replication', [221003, 101002, 12001, 12004, 1001]),
+    ('dnp-221-over-operator', [221004, 201130, 12001, 201000, 12004, 12001]),
+    ('dnp-221-over-delayed', [221004, 101000, 31001, 12001, 12004, 10004, 1001]),
     ('zero-count', [101000, 31001, 12001, 1001]),
     ('strings', [1015, 1001, 1015, 205008, 208003, 1015, 208000]),
     ('flags', [2002, 2003, 20003, 2001, 8042]),
@@ -312,7 +318,8 @@ def run(ctx):
                         continue
                     pol = HostilePolicy(rng) if phase % 2 else EdgePolicy(rng, phase=phase)
                     try:
-                        msg = R.build_message(ids, B, D, pol, 1 + phase % 3, comp, [4, 3, 2][phase % 3])
+                        msg = R.build_message(ids, B, D, pol, 1 + phase % 3, comp, [4, 3, 2][phase % 3],
+                                              grey221=name.startswith('dnp-221-over'))
                     except R.Unsupported:
                         ctx.count('gen_unsupported')
                         continue
